@@ -8,6 +8,8 @@ TInit == l = 1 /\ bad = {}
 RangeS(q) == {q[i] : i \in 1..Len(q)}
 Checks(r) == {<<r.live = r.log, "LiveIsLog">>,
               <<r.late = r.log, "LateSubscriberIsLog">>,
+              \* after a restart with the last sidecar line cut short (crash after the log flush) the thread still reads as the log
+              <<r.has_fault => r.late_after_fault = r.log, "LateSubscriberAfterTornSidecarIsLog">>,
               <<r.replayed = r.log, "ReplayedIsRawLog">>,
               <<r.has_sidecar => (IsPrefix(r.sidecar, r.log) /\ r.sidecar_settled => r.sidecar = r.log), "SidecarIsLog">>,
               <<r.has_snapshot => r.snapshot = r.log, "SnapshotIsLog">>,
